@@ -378,11 +378,24 @@ func runC12(r *simkit.Run, c Cfg) {
 	// metadata-only clients do not resolve provider addresses (no provider
 	// cache): results carry the provider ID alone
 	mdOnly := tp.Chance(1, 4, "metadataOnly")
-	r.Logf("~cfg", "multihashes=%d byzantine=%v preload=%v metadataOnly=%v", nmh, byzantine, preload, mdOnly)
+	ownClient := tp.Chance(1, 4, "ownClient")
+	if ownClient {
+		defer func() { http.DefaultTransport = net.Transport() }()
+		r.Probe("client-given-by-the-application")
+	}
+	r.Logf("~cfg", "multihashes=%d byzantine=%v preload=%v metadataOnly=%v ownClient=%v", nmh, byzantine, preload, mdOnly, ownClient)
 	// the client preloads its provider cache over the network: build it on a
 	// task so that the scheduler can answer the request
 	r.Go("setup", func(t *simkit.Task) {
-		cl = must(findclient.NewDHashClient(findclient.WithDHStoreURL("http://dhstore.example.org"), findclient.WithPcachePreload(preload), findclient.WithMetadataOnly(mdOnly)))
+		copts := []findclient.Option{findclient.WithDHStoreURL("http://dhstore.example.org"), findclient.WithPcachePreload(preload), findclient.WithMetadataOnly(mdOnly)}
+		if ownClient {
+			// the application's own HTTP client is the only way to the
+			// services (a proxy, an authenticating transport): whatever does
+			// not go through it gets nowhere
+			copts = append(copts, findclient.WithClient(&http.Client{Transport: net.Transport()}))
+			http.DefaultTransport = noRoute{}
+		}
+		cl = must(findclient.NewDHashClient(copts...))
 	})
 	if out := r.Loop(simkit.LoopCfg{Custom: net.RequestAction, MaxSteps: 100}); out != "done" {
 		r.Violate("c12.setup", "client construction did not complete (%s)", out)
@@ -582,6 +595,14 @@ func runC12(r *simkit.Run, c Cfg) {
 		}
 		r.Advance(time.Second)
 	}
+}
+
+// noRoute is the process-wide default transport in runs where the application
+// hands its own HTTP client to the find client.
+type noRoute struct{}
+
+func (noRoute) RoundTrip(q *http.Request) (*http.Response, error) {
+	return nil, fmt.Errorf("no route to %s except through the application's own HTTP client", q.URL.Host)
 }
 
 func indexOfIdent(ids []*Ident, x *Ident) int {
